@@ -94,6 +94,10 @@ fn main() {
     let seed = args.worker_seed();
     let mut shells = all_shells();
     for case_no in 0..n {
+        // the app's log (read back after every case) grows with the history: start afresh regularly
+        if case_no > 0 && case_no % 400 == 0 {
+            shells = all_shells();
+        }
         let mut rng = Rng::derive(seed, case_no, 17);
         // (a payload of a megabyte costs ~0.3 s over the JSON bridge: rarer in the long tier)
         let big = rng.chance(1, if args.thorough() { 600 } else { 50 });
